@@ -556,7 +556,7 @@ func genC13(rng *rand.Rand, n int, thorough bool, emit func(string)) {
 	for i := 0; i < n; i++ {
 		k := rng.Intn(1000)
 		switch {
-		case thorough && k < 30: // the concurrent variant only in the thorough tier: quick-tier replays stay deterministic scripts
+		case k < 30 && (thorough || k < 4): // the concurrent variant: a few in the quick tier, 3% in the thorough tier
 			emit(fmt.Sprintf("REGC %d %d %d %d", rng.Intn(1000), 1+rng.Intn(5), 1+rng.Intn(4), 20+rng.Intn(200)))
 		case k < 150:
 			emit("REG c " + genRegScript(rng, 25))
